@@ -18,7 +18,7 @@ class Solver(object):
     def __init__(self, timeout_ms=10000, feas_timeout_ms=2000, defer=False):
         self.defer = defer
         self.timeout_ms = timeout_ms
-        self.feas_timeout_ms = feas_timeout_ms
+        self.feas_timeout_ms = int(os.environ.get("VERIF_FEAS_TIMEOUT_MS", feas_timeout_ms))  # (the override is for stress tests)
         self.time = 0.0
         self.by_backend = {}
         self.queries = 0
